@@ -2,6 +2,6 @@
 \* SpecD adds stuttering in quiescent terminal states so that TLC's deadlock check reports hangs only.
 SPECIFICATION SpecD
 INVARIANTS
-  TypeOK NoSchedulerPanic NoUnable OrderOK StagesDisjoint AlsoNeverRuns
+  TypeOK NoSchedulerPanic NoUnable OrderOK ReadsFromCanonical StagesDisjoint AlsoNeverRuns
   SuccessImpliesRan DoneMeansAll ErrorReported NoHang CountersExactUnlessAbort
 CHECK_DEADLOCK TRUE
